@@ -36,7 +36,7 @@ def _case(draw):
     dense = draw(st.sampled_from([True, True, False]))
     spec = draw(D.dataset_spec(dense=dense, raw=False, features=False, tfeatures=False,
                                naming='ks', max_nc=24 if dense else 10, curated=None,
-                               probe_labels=True))
+                               probe_labels=True, scales=[1.0, 1.0, 1e-4, 1e-6, 300.0]))
     nc = spec['nc']
     explicit = [draw(st.lists(st.integers(0, nc - 1), min_size=1, max_size=min(nc, 5), unique=True))
                 for _ in range(2)]
@@ -45,9 +45,19 @@ def _case(draw):
             'default_thr': draw(st.sampled_from([None, None, 0.5, 0.3]))}
 
 
+def _many_channel_cases(th):
+    # probes with 64..400 channels; whitening matrices whose determinant under- or overflows
+    for i, (nc, wsc) in enumerate([(400, 0.1), (70, None)] + (
+            [(384, 1.0), (400, 12.0), (64, 0.1), (129, 1e-3)] if th else [])):
+        yield {'spec': D.many_channels_spec(nc, seed=i + 2, wm_scale=wsc, shanks=bool(i % 2)),
+               'ncc': 12, 'explicit': [[0, nc - 1, nc // 2]], 'scaling': None, 'default_thr': None}
+
+
 def drivers(tier):
     th = tier == 'thorough'
-    return [dict(kind='hyp', name='records', strategy=_case(), examples=90000 if th else 8000)]
+    return [dict(kind='enum', name='many-channels', exhaustive=False,
+                 bound='64..400 channels', cases=lambda: _many_channel_cases(th)),
+            dict(kind='hyp', name='records', strategy=_case(), examples=90000 if th else 8000)]
 
 
 def _close(a, b, scale):
@@ -230,4 +240,10 @@ def classify(case, info):
         labels.append('integer-valued (amplitude ties)')
     if case['scaling']:
         labels.append('template_scaling')
+    if s['templates'].get('scale', 1.0) != 1.0:
+        labels.append('waveform-units:%g' % s['templates']['scale'])
+    if any(s['templates'].get('faint_cols') or []):
+        labels.append('faint-stored-channel')
+    if s['nc'] >= 64:
+        labels.append('>=64-channels')
     return labels, nt
